@@ -66,7 +66,9 @@ Theorem C02_sprint_leaf_noninterference : forall fuel env a1 a2 o1 o2,
 Proof. exact sprint_leaf_noninterference. Qed.
 Print Assumptions C02_sprint_leaf_noninterference.
 
-(* The same for operands that are TREES: slices, arrays, structs (exported and unexported fields,
+(* star_ok f a1 a2: the format has no '*', or the operand lists answer every width/precision query
+   alike (e.g. their integer operands are the same: lemma ints_public).
+   The same for operands that are TREES: slices, arrays, structs (exported and unexported fields,
    with %+v / %#v field and type names), maps (keys shared), interface slots, pointers - nested to any
    depth - over related leaves, and VALUES OF USER TYPES whose String / Error / GoString method
    returns related strings (no Formatter / SafeFormatter / SafeMessager; methods that return; error
@@ -77,7 +79,7 @@ Print Assumptions C02_sprint_leaf_noninterference.
    (with related payloads, at any point of a script) or be called on nil receivers: the panic reports
    of the two runs are related. *)
 Theorem C02_sprintf_tree_noninterference : forall fuel env f a1 a2 o1 o2,
-  osane (orc env) -> hook_ok env -> no_star f = true -> Forall2 arel a1 a2 ->
+  osane (orc env) -> hook_ok env -> star_ok f a1 a2 -> Forall2 arel a1 a2 ->
   sprintf fuel env f a1 = ROk o1 -> sprintf fuel env f a2 = ROk o2 ->
   forall ops1 ops2, o_log o1 = ops1 ++ [OTake] -> o_log o2 = ops2 ++ [OTake] ->
   rawok ops1 = true -> ptail_ok_from init ops1 = true -> ptail_ok_from init ops2 = true ->
